@@ -15,28 +15,29 @@ import (
 )
 
 type Global struct {
-	prog         *ssa.Program
-	pkgs         []*packages.Package
-	spkgs        map[string]*ssa.Package // by package name
-	tpkgs        map[string]*types.Package
-	contracts    *Contracts
-	funcs        map[string]*ssa.Function
-	typeTags     map[string]int
-	tagTypes     map[int]types.Type
-	strIDs       map[string]int
-	filePkg      map[string]string // contract file (dir/base) -> package name
-	modsets      map[*ssa.Function]map[string]modInfo
-	modBusy      map[*ssa.Function]bool
-	busyHits     int
-	modDepth     int
-	modChanged   bool
-	modRoundSeen map[*ssa.Function]bool
-	modProv      map[*ssa.Function]map[string]modInfo
-	fnKeyIDs     map[string]int
-	idKeys       []string
-	heapKinds    map[string]string
-	repo         string
-	fnIDs        map[*ssa.Function]int
+	trustedEffects map[string]bool // trusted/external contracts whose declared write effects entered a mod-set
+	prog           *ssa.Program
+	pkgs           []*packages.Package
+	spkgs          map[string]*ssa.Package // by package name
+	tpkgs          map[string]*types.Package
+	contracts      *Contracts
+	funcs          map[string]*ssa.Function
+	typeTags       map[string]int
+	tagTypes       map[int]types.Type
+	strIDs         map[string]int
+	filePkg        map[string]string // contract file (dir/base) -> package name
+	modsets        map[*ssa.Function]map[string]modInfo
+	modBusy        map[*ssa.Function]bool
+	busyHits       int
+	modDepth       int
+	modChanged     bool
+	modRoundSeen   map[*ssa.Function]bool
+	modProv        map[*ssa.Function]map[string]modInfo
+	fnKeyIDs       map[string]int
+	idKeys         []string
+	heapKinds      map[string]string
+	repo           string
+	fnIDs          map[*ssa.Function]int
 }
 
 var repoPkgs = []string{".", "./quorum", "./tracker", "./confchange", "./raftpb"}
